@@ -12,10 +12,25 @@ for mid in sys.argv[1:]:
     r = sh("git -C /repo apply %s/patch.diff" % d)
     if r.returncode != 0:
         print(mid, "patch does not apply"); continue
+    limit = int(os.environ.get("MUT_TIMEOUT", "0"))
+    timed_out = False
     try:
-        out = sh("cd %s && ./check %s quick" % (V, pid)).stdout
+        if limit:
+            import signal
+            pr = subprocess.Popen("cd %s && ./check %s quick" % (V, pid), shell=True, stdout=subprocess.PIPE, stderr=subprocess.STDOUT, text=True, start_new_session=True)
+            try:
+                out, _ = pr.communicate(timeout=limit)
+            except subprocess.TimeoutExpired:
+                os.killpg(pr.pid, signal.SIGKILL)
+                out, _ = pr.communicate()
+                timed_out = True
+        else:
+            out = sh("cd %s && ./check %s quick" % (V, pid)).stdout
     finally:
         sh("git -C /repo checkout -- . && git -C /repo clean -fdq")
+    if timed_out:
+        print(mid, "| | | not finished within %ds (search escalated); previous record kept" % limit, flush=True)
+        continue
     verdict, suite, sig = "MISSED (OK)", "", ""
     m = re.search(r"^VIOLATION property=\S+ replay=(\S+)( no-failing-input-found)?", out, re.M)
     if m:
